@@ -24,6 +24,8 @@ type WorkerResult struct {
 	Obligations  int                `json:"obligations"`
 	Discharged   int                `json:"discharged"`
 	Trivial      int                `json:"trivially_true_asserts"`
+	AbsImplied   int                `json:"asserts_implied_by_path_facts"`
+	PipeRestarts int                `json:"solver_pipe_restarts_after_error,omitempty"`
 	Undecided    []interp.Undecided `json:"undecided,omitempty"`
 	Cexs         []string           `json:"cex_files,omitempty"`
 	CexLabels    []string           `json:"cex_labels,omitempty"`
@@ -107,13 +109,22 @@ func RunWorker(prop, hname, tier string, caseIdx int, outDir string, verbose boo
 	if cases == 0 {
 		cases = 1
 	}
-	pipeT := 10 * time.Second
+	feasT, pipeT := 2*time.Second, 10*time.Second
 	if ts.PipeS > 0 {
 		pipeT = time.Duration(ts.PipeS) * time.Second
 	}
+	if ts.FeasMs2 > 0 {
+		feasT = time.Duration(ts.FeasMs2) * time.Millisecond
+	}
+	if ts.FeasMs > 0 {
+		feasT = time.Duration(ts.FeasMs) * time.Millisecond
+	}
+	if ts.PipeMs > 0 {
+		pipeT = time.Duration(ts.PipeMs) * time.Millisecond
+	}
 	opt := interp.Options{
 		Harness: hname, OutDir: outDir, Case: caseIdx, Cases: cases,
-		FeasTimeout: 2 * time.Second, PipeTimeout: pipeT, PortTimeout: time.Duration(oblS) * time.Second,
+		FeasTimeout: feasT, PipeTimeout: pipeT, PortTimeout: time.Duration(oblS) * time.Second,
 		Backends: backends, MaxPaths: ts.MaxPaths, Deadline: start.Add(time.Duration(tmo) * time.Second),
 		Verbose: verbose, Pin: pin, Witnesses: witnessCount(h, tier, caseIdx),
 	}
@@ -132,6 +143,8 @@ func RunWorker(prop, hname, tier string, caseIdx int, outDir string, verbose boo
 	eng.Explore(in, l.Entry)
 	res.Paths, res.Infeasible, res.Forks, res.MaxDepth = eng.Paths, eng.Infeasible, eng.Forks, eng.MaxDepth
 	res.Obligations, res.Discharged, res.Trivial = eng.Obligations, eng.Discharged, eng.Trivial
+	res.AbsImplied = eng.AbsDischarged
+	res.PipeRestarts = eng.PipeRestarts
 	res.Undecided = eng.Undecided
 	for _, c := range eng.Cexs {
 		res.Cexs = append(res.Cexs, c.File)
